@@ -1,4 +1,4 @@
-use super::swift_utils::{parse_bic, parse_max_length, parse_swift_chars};
+use super::swift_utils::{parse_bic, parse_length_range, parse_max_length, parse_swift_chars};
 use crate::errors::ParseError;
 use crate::traits::SwiftField;
 use serde::{Deserialize, Serialize};
@@ -29,7 +29,7 @@ impl SwiftField for Field25NoOption {
         let input_stripped = input.strip_prefix('/').unwrap_or(input);
 
         // Parse as 35x - up to 35 SWIFT characters
-        let authorisation = parse_max_length(input_stripped, 35, "Field 25 authorisation")?;
+        let authorisation = parse_length_range(input_stripped, 1, 35, "Field 25 authorisation")?;
         parse_swift_chars(&authorisation, "Field 25 authorisation")?;
 
         Ok(Field25NoOption { authorisation })
